@@ -11,6 +11,10 @@ specification computed and opened with ELFFile.
   the num_*/list properties (+ the vendor/scope/tag filters); partial then abandoned; a suspended
   iterator resumed after another one ran (interleaved).  Levels are isolated: level-2/3 patterns run
   on objects obtained by a nested-full pass.
+  Client sessions (Attrs.tla, StartSession / ClientCall): call sequences on ONE fresh section / subsection /
+  sub-subsection object of a fresh file - iterations abandoned after k items, complete iterations, num_* and list
+  properties, iterations filtered by vendor / scope / tag, one iteration kept open in between - replayed call by call,
+  every answer compared with the answer the specification logged for that call.
   EHABI: get_ehabi_infos -> num_entry/get_entry(i): corrupt, unwindable, function_offset,
   personality, bytecode_array, eh_table_offset, mnmemonic_array() (normalised: see Ehabi.tla header).
 Python only concretises, calls the API, parses the library's mnemonic text into the spec's normal
@@ -52,7 +56,7 @@ def check(run):
         'eh_table_offset of table-based model 0 and generic entries: absent or the table offset',
         'byte-code is complete instructions padded with finish (0xb0); 0xb4/0xb5 text not asserted',
         'inline entries with personality index 1/2 are not generated']
-    for cfg in ('Attrs_' + run.tier, 'Ehabi_' + run.tier):
+    for cfg in ('Attrs_' + run.tier, 'Ehabi_' + run.tier) + (() if q else ('Attrs_sess3',)):
         with open('%s/cfg/%s.cfg' % (core.SPEC, cfg)) as f:
             run.assumptions += [cfg + ': ' + ' '.join(l[2:].strip() for l in f if l.startswith('\\*'))]
     res = {}
@@ -79,6 +83,8 @@ def check(run):
                 raise err[0]
             _run_family(run, res[mod].out, family, fn)
         if not q:
+            # longer free sessions on a narrow population (see the cfg's comment)
+            _run_family(run, run.tlc('Attrs', 'Attrs_sess3', workers=w).out, 'attrs', _attrs_case)
             _crosscheck_readelf(run, res['Ehabi'].out)
     finally:
         signal.setitimer(signal.ITIMER_REAL, 0)
@@ -89,27 +95,53 @@ def check(run):
         run.samples.append({'note': 'no sample'})
 
 
+def _sessions_of(path):
+    """The finished client sessions of the Attrs specification (lines t = "sess"), by the key of their object."""
+    out = {}
+    with open(path) as f:
+        for line in f:
+            if '\\"t\\":\\"sess\\"' not in line:
+                continue
+            s = json.loads(json.loads(line))
+            out.setdefault(s['key'], []).append(s)
+    return out
+
+
 def _run_family(run, path, family, fn):
     from elftools.elf.elffile import ELFFile
     seen = set()
     k = 0
+    sessions = _sessions_of(path) if family == 'attrs' else {}
+    nsess = {}
     for case in run.cases(path):
+        if case.get('t') == 'sess':
+            continue
+        if case.get('key'):
+            case['sessions'] = sorted(sessions.pop(case['key'], ()), key=lambda x: (x['tgt'], x['disc'], json.dumps(x['log'])))
+            for x in case['sessions']:
+                nsess[x['disc']] = nsess.get(x['disc'], 0) + 1
         data = concretise(case['chunks'])
         key = core.digest([family, core.b64(data)])
         if key in seen:
             continue
         seen.add(key)
         k += 1
-        brief = {'family': family, 'meta': {x: case[x] for x in case if x not in ('chunks', 'view')},
+        brief = {'family': family, 'meta': {x: case[x] for x in case if x not in ('chunks', 'view', 'sessions', 't', 'key')},
                  'bytes_b64': core.b64(data), 'view': case['view']}
         _one(run, ELFFile, family, fn, case, data, brief, key, sample=(k % 1500 == 7))
     if k == 0:
         raise core.MachineryError('no %s cases were emitted' % family)
+    if sessions:
+        raise core.MachineryError('%d session groups belong to no emitted %s case' % (len(sessions), family))
+    if family == 'attrs':
+        if not nsess:
+            raise core.MachineryError('Attrs emitted no client session')
+        run.extra['client_sessions'] = dict(run.extra.get('client_sessions', {}), **nsess)
 
 
 def _one(run, ELFFile, family, fn, case, data, brief, key, sample=False):
-    def bad(clause, tag, exp, obs):
-        run.mismatch(clause, tag, brief, exp, obs)
+    def bad(clause, tag, exp, obs, session=None):
+        run.mismatch(clause, tag, brief if session is None else dict(brief, session=session), exp, obs)
     signal.setitimer(signal.ITIMER_REAL, CASE_TIMEOUT)
     try:
         ef = ELFFile(io.BytesIO(data))
@@ -144,6 +176,8 @@ def replay(run, path):
             data = base64.b64decode(c['bytes_b64'])
             case = dict(c['meta'])
             case['view'] = c['view']
+            if 'session' in c:
+                case['sessions'] = [c['session']]
             fam = c['family']
             _one(run, ELFFile, fam, _attrs_case if fam == 'attrs' else _ehabi_case, case, data, c, core.digest(c['bytes_b64']))
     finally:
@@ -417,7 +451,105 @@ def _attrs_case(run, ef, case, bad):
         rest = attrs(it, off=1)
         if core.jnorm(first + rest) != core.jnorm(exp_a):
             bad('attributes.interleaved', t3, exp_a, first + rest)
+    _attrs_sessions(ef, case, name, voc, bad)
     return nsub > 1 or any(len(s['subsubs']) > 1 or any(ss['attrs'] for ss in s['subsubs']) for s in view)
+
+
+def _nth(it, n):
+    for x in itertools.islice(it, n, n + 1):
+        return x
+    raise LookupError('no item %d' % n)
+
+
+def _attrs_sessions(ef0, case, name, voc, bad0):
+    """Client sessions of the specification: each on ONE fresh object (section / subsection / sub-subsection) of a file object of
+    its own; every call's answer against the logged one (positions of the children the call yields; num: the count)."""
+    from elftools.elf.elffile import ELFFile
+    sessions = case.get('sessions') or ()
+    if not sessions:
+        return
+    view = case['view']
+    data = ef0.stream.getvalue()
+    libtags = {}
+    for s in sessions:
+        lvl, i, j = s['tgt']
+
+        def bad(clause, exp, obs, s=s, lvl=lvl):
+            # the session travels with the mismatch (replay), the tag names level and discipline
+            bad0(clause, 'level%d/%s' % (lvl, s['disc']), exp, obs, session=s)
+        try:
+            sec = ELFFile(io.BytesIO(data)).get_section_by_name(name)
+            if lvl == 1:
+                obj, kids = sec, view
+            elif lvl == 2:
+                obj, kids = _nth(sec.iter_subsections(), i - 1), view[i - 1]['subsubs']
+            else:
+                obj, kids = _nth(_nth(sec.iter_subsections(), i - 1).iter_subsubsections(), j - 1), view[i - 1]['subsubs'][j - 1]['attrs']
+                if (i, j) not in libtags:         # the names the library gives the tags: read on another file object
+                    ref = _nth(_nth(ELFFile(io.BytesIO(data)).get_section_by_name(name).iter_subsections(), i - 1).iter_subsubsections(), j - 1)
+                    libtags[(i, j)] = [a.tag for a in ref.iter_attributes()]
+        except _Timeout:
+            raise
+        except Exception as ex:
+            bad('session.target', 'the object', 'exc:%s:%s' % (type(ex).__name__, ex))
+            continue
+        n = len(kids)
+        if lvl == 1:
+            exp = [[bytes(x['vendor']).decode('utf-8'), x['length']] for x in kids]
+            it_fn, num_fn, list_fn, fkw = obj.iter_subsections, (lambda: obj.num_subsections), (lambda: obj.subsections), 'vendor_name'
+            keys = [e[0] for e in exp]
+
+            def norm(x, xk):
+                return [x['vendor_name'], x['length']]
+        elif lvl == 2:
+            exp = [_exp_hdr(x) for x in kids]
+            it_fn, num_fn, list_fn, fkw = obj.iter_subsubsections, (lambda: obj.num_subsubsections), (lambda: obj.subsubsections), 'scope'
+            keys = [('TAG_FILE', 'TAG_SECTION', 'TAG_SYMBOL')[x['scope'] - 1] for x in kids]
+
+            def norm(x, xk):
+                return _obs_hdr(x, xk)
+        else:
+            exp = [_exp_attr(x) for x in kids]
+            it_fn, num_fn, list_fn, fkw = obj.iter_attributes, (lambda: obj.num_attributes), (lambda: obj.attributes), 'tag'
+            keys = libtags[(i, j)]
+            if len(keys) != n:
+                continue                  # the plain enumeration is already wrong (reported by the patterns above)
+
+            def norm(x, xk):
+                return _obs_attr(x, xk, voc)
+
+        def items(lst, ans):
+            return [x if isinstance(x, dict) else norm(x, kids[ans[m] - 1] if m < len(ans) else None) for m, x in enumerate(lst)]
+        it = None
+        for c, (op, q, ans) in enumerate(s['log']):
+            want = None if op == 'num' else [exp[k - 1] for k in ans]
+            if op == 'open':
+                it = it_fn()
+                continue
+            if op == 'num':
+                want, got = ans[0], core.norm_exc(num_fn)
+                if lvl == 3 and got == ans[0] + 1:
+                    got = ans[0]            # the scope header may be counted as an attribute (library's choice)
+            elif op == 'list':
+                lst = core.norm_exc(list_fn)
+                if lvl == 3 and isinstance(lst, list) and len(lst) == n + 1:
+                    lst = lst[1:]
+                got = lst if isinstance(lst, dict) else items(lst, ans)
+            elif op == 'step':
+                got = items(_take(itertools.islice(it, 1), 1), ans)
+            elif op == 'take':
+                got = items(_take(itertools.islice(it_fn(), q), q), ans)          # the iterator is dropped after q items
+            elif op == 'all':
+                got = items(_take(it_fn(), n), ans)
+            else:                           # filt / ftake: by the key of child q (0: a key no child has)
+                key = keys[q - 1] if q else ('nosuch' if lvl == 1 else 'TAG_NOSUCH')
+                if not isinstance(key, str):
+                    break                 # the library has no name for this tag: cannot be asked for by name
+                fit = it_fn(**{fkw: key})
+                got = items(_take(itertools.islice(fit, 1), 1) if op == 'ftake' else _take(fit, n), ans)
+            if core.jnorm(got) != core.jnorm(want):
+                bad('session.%s' % op, {'call': c, 'op': op, 'arg': q, 'answer': want, 'after': s['log'][:c]}, {'call': c, 'answer': got})
+                break                       # the first wrong answer of a session is the finding
 
 
 def _nested_mismatch(bad, table, view, exp, obs):
